@@ -38,6 +38,10 @@ def gen_world(seed, tier):
             g = gen.digraph_rich(rng, max_nodes=6, max_extra=5)
             for e in g["edges"]:
                 e[2] = rng.choice([0, 1, 2, 5, 50])
+        if rng.random() < 0.25:
+            # an isolated node: it is a source and a sink at once
+            extra = [x for x in gen.NAME_POOL if x not in g["nodes"]]
+            g["nodes"] = g["nodes"] + [rng.choice(extra)]
         graphs.append(g)
     nops = rng.randint(20, 60)
     ops = []
@@ -63,6 +67,8 @@ def gen_world(seed, tier):
             o["ignore"] = [[e[0], e[1]] for e in g["edges"] if rng.random() < 0.3]
             if len(o["ignore"]) == len(g["edges"]):
                 o["ignore"].pop()        # at least one edge remains (the all-ignored graph has no width; cf. C09)
+            if o["ignore"] and rng.random() < 0.3:
+                o["ignore"] = o["ignore"] + [o["ignore"][0]] * rng.randint(1, 3)      # an ignore *list* may repeat an edge
             o["with_st_edges"] = rng.random() < 0.7
         elif op == "antichain_w":
             o["weights"] = [[e[0], e[1], rng.choice([0, 1, 1, 2, 3, 7, 100000])] for e in g["edges"] if rng.random() < 0.8]
@@ -200,6 +206,10 @@ def execute(spec):
                     got2 = tgt.get_width(edges_to_ignore=list(ign)) if kind == "width_ign" else tgt.get_width()
                     if got != got2:
                         V("width_not_repeatable", {"first": got, "second": got2}, op)
+                    if kind == "width_ign" and len(set(ign)) != len(ign):
+                        got3 = tgt.get_width(edges_to_ignore=list(dict.fromkeys(ign)))
+                        if got3 != got:
+                            V("width_depends_on_repeated_ignore_entries", {"with_repeats": got, "deduplicated": got3, "ignore": ign}, op)
                     if ST is not None:
                         wt = {e: 1 for e in ST.edges() if e not in set(ign)}
                         exp = _antichain_bruteforce(list(ST.edges()), wt, o["reach_t"])
